@@ -105,7 +105,9 @@ pub fn dynamic_connections(h: &Hist) -> Vec<(u64, u16, u8, Edge)> {
                     }
                 }
             }
-            out.push((*seq, node, port, Edge { cid, target: Target::Node(target), map: true, filter: None }));
+            // targets from 10000 on are sinks (see `Op::Connect`)
+            let t = if target >= 10_000 { Target::Sink(target - 10_000) } else { Target::Node(target) };
+            out.push((*seq, node, port, Edge { cid, target: t, map: true, filter: None }));
         }
     }
     out
